@@ -44,7 +44,7 @@ THEOREMS = ["C10_channels", "C10_channels_parse", "C10_crlf_string_untranslated"
             "C10_encoding_choice_detector", "C10_encoding_choice_adhoc", "C10_bom_detection",
             "C10_encoding_bom_overrides", "C10_encoding_explicit_wins", "C10_encoding_chardet",
             "C10_encoding_chardet_none", "C10_encoding_no_autodetect", "C10_dispatch", "C10_dispatch_empty",
-            "C10_dispatch_filename", "C10_pure"]
+            "C10_dispatch_filename", "C10_pure", "C10_open_with_codecs_current"]
 ASSUMPTIONS = [
     "PARTIAL BY NATURE. Proved: open_file dispatch, open_with_codecs encoding choice, and that every channel delivers the same text (hence any function of the delivered text gives equal results).",
     "assumed (explicit hypotheses of C10_channels, never axioms): decode enc e (encode enc t) = t for encodable t (codec_ok, per named codec); decode 'utf-8-sig' (BOM ++ encode 'utf-8' t) = t; universal-newline translation maps a CR-free text written with LF/CRLF/CR line ends back to itself (proved for the concrete translation unl_impl)",
